@@ -54,6 +54,36 @@ func checkC08(c *Ctx, r *Report) {
 		lockLeakRule(c, r, analyseLocks(c, "", name), "R8.9", name)
 	}
 	r.floor("R8.9", 4)
+	// R8.10: "the retryable client error wrapping the cause": ClientError.Unwrap hands back
+	// exactly the stored cause (errors.Is / errors.As on the returned error reach it)
+	{
+		r.instance("R8.10", 1)
+		uw := c.fnOpt("", "*ClientError.Unwrap")
+		if uw == nil {
+			r.fail("R8.10", "modbus.ClientError", "ClientError has no Unwrap method: the cause of a transport failure cannot be inspected", "-", "", "no-unwrap")
+		} else {
+			_, fr := analyse(c, uw)
+			okU := len(fr.returns) > 0
+			detail := ""
+			if p, ok := fr.val(uw.Params[0]).(APtr); ok && p.obj != nil {
+				want := describeAV(fr.loadPath(p.obj, pathStr(p.path, 0), types.Universe.Lookup("error").Type(), nil))
+				for _, rs := range fr.returns {
+					if len(rs.state) > 0 && describeAV(rs.vals[0]) != want {
+						okU = false
+						detail = describeAV(rs.vals[0]) + " vs " + want
+					}
+				}
+			} else {
+				okU = false
+			}
+			if okU {
+				r.ok("R8.10", fnID(uw), "Unwrap returns the stored cause on every path", c.pos(uw.Pos()), true)
+			} else {
+				r.fail("R8.10", fnID(uw), "Unwrap can return something other than the stored cause (errors.Is/As no longer find the transport error)", c.pos(uw.Pos()), detail, "unwrap-not-cause")
+			}
+		}
+		r.floor("R8.10", 1)
+	}
 	// R8.8: never panics: the installed reply functions cannot fail on any reply bytes
 	installedNoPanic(c, r, "R8.8")
 	r.floor("R8.8", 4)
